@@ -450,3 +450,8 @@ Proof.
     + injection Hp as <-. injection Ha as <-. destruct Hm as [<-|[<-|[<-|[]]]]; vm_compute; discriminate.
     + destruct i; discriminate.
 Qed.
+
+(* the error outcome of errors_excluded is reachable: an engine that stops answering *)
+Example ex_exhausted : play_one_game ex_cfg (firstn 1 ex_stream) = Err Exhausted /\
+  Z.of_nat (length (firstn 1 ex_stream)) <= sp_ply_limit ex_cfg.
+Proof. split; [vm_compute; reflexivity|simpl; lia]. Qed.
